@@ -238,7 +238,7 @@ impl DOP853 {
             None => {
                 evals.ode += 1;
                 hinit(
-                    f, x, &y, posneg, &k1, &mut k2, &mut y1, 8, h_max, &atol, &rtol,
+                    f, x, &y, posneg, &k1, &mut k2, &mut y1, 8, h_max.min((xend - x).abs()), &atol, &rtol,
                 )
             }
         };
